@@ -261,6 +261,8 @@ pub struct ValInfo {
     pub dropped: u8,
     pub parts: Vec<u32>,
     pub absorbed: bool,
+    /// virtual value of a zero-sized item: never returned, never dropped
+    pub untracked: bool,
 }
 
 #[derive(Clone, Copy, Debug)]
@@ -392,6 +394,8 @@ pub struct World {
     /// child poll counter (for fault enumeration) and the poll at which to panic
     pub child_poll_counter: u32,
     pub panic_at_child_poll: u32,
+    /// per-run event budget (raised for deliberately long or huge runs)
+    pub log_limit: usize,
     pub closure_call_counter: u32,
     pub panic_at_closure_call: u32,
     pub nontrivial_pending: bool,
@@ -463,6 +467,7 @@ impl World {
             frame: Vec::new(),
             child_poll_counter: 0,
             panic_at_child_poll: 0,
+            log_limit: 0,
             closure_call_counter: 0,
             panic_at_closure_call: 0,
             nontrivial_pending: false,
@@ -543,6 +548,7 @@ impl World {
             dropped: 0,
             parts: Vec::new(),
             absorbed: false,
+            untracked: false,
         });
         self.emit(Ev::ValCreated { v: id, by });
         if by != NO_NODE {
@@ -565,6 +571,7 @@ impl World {
             dropped: 0,
             parts,
             absorbed: false,
+            untracked: false,
         });
         if by != NO_NODE {
             self.nodes[by as usize].produced.push(id);
